@@ -3800,6 +3800,13 @@ type BinaryExpr struct {
 
 // String returns a string representation of the binary expression.
 func (e *BinaryExpr) String() string {
+	// A right operand that is itself a binary expression of the same or a
+	// looser precedence level (the parser produces one for a negated operand,
+	// "a / -b") would regroup to the left when the text is parsed again:
+	// keep its grouping explicit.
+	if rhs, ok := e.RHS.(*BinaryExpr); ok && rhs != nil && rhs.Op.Precedence() <= e.Op.Precedence() {
+		return fmt.Sprintf("%s %s (%s)", e.LHS.String(), e.Op.String(), rhs.String())
+	}
 	return fmt.Sprintf("%s %s %s", e.LHS.String(), e.Op.String(), e.RHS.String())
 }
 
